@@ -10,7 +10,7 @@ PROPERTY = "C15"
 RULE = ("cases are (tree, mode): trees rooted at a known element - generator-valid and already-invalid EML trees with unknown elements, "
         "misplaced known elements, invalid nodes, allowed-but-unknown names and repeated max-1 children planted at arbitrary depths, "
         "also under parents that have a content or attribute error of their own and under metadata; each pruned in non-strict and in "
-        "strict mode, then pruned a second time. distinct = distinct (tree value, mode); non-trivial = trees from which at least one "
+        "strict mode (a quarter of them at an inner node of a larger tree, half of them after the tree was validated and then edited), then pruned a second time. distinct = distinct (tree value, mode); non-trivial = trees from which at least one "
         "subtree is removed")
 ASSUMPTIONS = [
     "'a child its rule does not allow' = a child name that does not occur in the children section of the parent's rule",
@@ -18,7 +18,7 @@ ASSUMPTIONS = [
     "own pruning drop it if the real validate.node rejects it (single-node validation itself is judged by C01-C04)",
     "removed subtree roots = nodes no longer reachable from the root that no other unreachable node still lists",
 ]
-REQUIRED = ["prunes", "prunes_strict", "prunes_removing", "offender_below_parent_with_own_error", "second_prunes", "model_agreements",
+REQUIRED = ["prunes_at_inner_node", "prunes", "prunes_strict", "prunes_removing", "offender_below_parent_with_own_error", "second_prunes", "model_agreements",
             "trees_with_metadata"]
 EXHAUSTIVE = {"quick": False, "thorough": False}
 
@@ -78,6 +78,14 @@ def plant(rng, gen):
         if t.name not in gen.known:
             t.name = rng.choice(anytrees.ROOTS)
     log = []
+    if rng.random() < 0.5:
+        # the usual life of a document: validated first (whatever the verdict), edited afterwards, pruned last
+        try:
+            mvalidate.tree(t, [])
+            mvalidate.tree(t)
+        except Exception:
+            pass
+        log.append("validated-before-edits")
     for _ in range(rng.randint(0, 7)):
         nodes = treegen.all_nodes(t)
         n = rng.choice(nodes)
@@ -121,9 +129,20 @@ def plant(rng, gen):
     return t, log
 
 
-def judge(ctx, t, strict, log):
+def judge(ctx, whole, strict, log, at_index=None):
+    """Prunes the subtree rooted at pre-order position at_index of `whole` (default: the root).  All post-conditions are about
+    that subtree; in addition nothing outside it may change and its root stays where it is."""
+    whole_plain = snapshot.to_plain(whole)
+    wit = {"tree": whole_plain, "strict": strict, "plants": log, "at_index": at_index}
+    t = whole if not at_index else snapshot.walk(whole)[at_index]
+    outside = None
+    if t is not whole:
+        inside_ids = {id(x) for x in snapshot.walk(t)}
+        outside_nodes = [x for x in snapshot.walk(whole) if id(x) not in inside_ids]
+        outside = (t.parent, list(t.parent.children), [(x, snapshot.snap_node(x)) for x in outside_nodes if x is not t.parent],
+                   (t.parent.id, t.parent.name, t.parent.content, dict(t.parent.attributes)))
+        ctx.count("prunes_at_inner_node")
     plain = snapshot.to_plain(t)
-    wit = {"tree": plain, "strict": strict, "plants": log}
     mode = "strict" if strict else "lenient"
     # reference model on a private deep copy (rebuilt from the plain description: independent of Node.copy)
     shadow = snapshot.from_plain(Node, plain)
@@ -146,6 +165,19 @@ def judge(ctx, t, strict, log):
         return
     ctx.evaluated()
     ctx.count("prunes_strict" if strict else "prunes")
+    if outside is not None:
+        par, kids_before, others, par_fields = outside
+        if t.parent is not par or list(par.children) != kids_before:
+            ctx.violation(f"prune-root-detached-or-siblings-changed|{mode}", f"pruning the subtree at <{t.name}> changed its parent's child list "
+                                                                             f"({[c.name for c in kids_before]} -> {[c.name for c in par.children]})", wit)
+            return
+        for x, before_x in others:
+            if snapshot.snap_node(x) != before_x:
+                ctx.violation(f"prune-changes-outside-subtree|{mode}", f"<{x.name}> outside the pruned subtree changed", wit)
+                return
+        if (par.id, par.name, par.content, dict(par.attributes)) != par_fields or Node.store.get(par.id) is not par:
+            ctx.violation(f"prune-changes-outside-subtree|{mode}", f"the parent <{par.name}> of the pruned subtree changed or left the registry", wit)
+            return
     root_removed = isinstance(result, list) and any(isinstance(p, tuple) and p and p[0] is t for p in result)
     after = [] if root_removed else anytrees.judged_nodes(t)
     all_after = [] if root_removed else snapshot.walk(t)
@@ -254,7 +286,12 @@ def run(ctx, params):
     for i in range(params["trees"]):
         strict = rng.random() < 0.5
         t, log = plant(rng, gen)
-        ctx.case(judge, ctx, t, strict, log)
+        at = None
+        if rng.random() < 0.25:
+            inner = [k for k, x in enumerate(snapshot.walk(t)) if k > 0 and x.name in gen.known and x.children]
+            if inner:
+                at = rng.choice(inner)
+        ctx.case(judge, ctx, t, strict, log, at)
         if i % 199 == 0:
             ctx.sample({"root": t.name, "strict": strict, "plants": log})
         emlkit.discard(t)
@@ -269,6 +306,6 @@ def run(ctx, params):
 
 def replay(ctx, witness):
     t = snapshot.from_plain(Node, witness["tree"])
-    judge(ctx, t, witness["strict"], witness.get("plants", []))
+    judge(ctx, t, witness["strict"], witness.get("plants", []), witness.get("at_index"))
     ctx.distinct(1)
     ctx.distinct(2)
